@@ -48,7 +48,8 @@ META = {
     'assumptions': ['Twisted delivers the stream in order'],
     'decided': ['D1 layout agreement', 'D2 non-interference premises',
                 'D3 drain', 'D4 bounded stack', 'D5 mode-switch typestate',
-                'D6 line-mode premises'],
+                'D6 line-mode premises (incl. the length limit is a limit on one '
+                'line)'],
     'undecided': ['the delivered sequence for concrete streams and '
                   'partitions'],
 }
